@@ -31,7 +31,9 @@ def meta(tier):
 def run_case(prog, init, stubs, acc, con, lib):
     text = '\n'.join(pp(prog))
     case = {'prog': prog, 'init': refval.enc(init), 'stubs': sorted(stubs)}
-    extra = {n: gen_prog.make_stub(n) for n in stubs}
+    extra = {n: gen_prog.make_stub(n) for n in stubs if not n.endswith('=null')}
+    # a caller may also bind a library name to null (e.g. to disable it): the library never puts its function back
+    extra.update({n[:-5]: None for n in stubs if n.endswith('=null')})
     verdict, real, _ = exec_prog.compare_case(prog, init, None, acc, 'C04', lib, text=text, case=case, extra_hosts=extra)
     _drain(con, acc, 'C04', case)
     calls = sum(1 for l in (real or {}).get('logs', []) if l.startswith('in_')) if real else 0
@@ -59,6 +61,7 @@ def make_case(rnd):
     init = gen_prog.init_values(rnd, gen.vars + ['gs'], p_num=0.75)
     init['q9'] = 'GLOBAL-q9'
     stubs = [n for n in gen_prog.HOST_SHADOW if rnd.random() < 0.4]
+    stubs += [n + '=null' for n in ('systemFetch', 'mathSign', 'arrayPop', 'stringTrim', 'systemLogDebug') if n not in stubs and rnd.random() < 0.12]
     return prog, init, stubs, gen
 
 
